@@ -90,7 +90,8 @@ REQUIRED_BUCKETS = ["doc/valid", "doc/reader-ok", "num/exponent-repr-small", "nu
                     "writer/after-write_scenario_to_file", "writer/after-failed-write", "writer/after-half-written",
                     "writer/after-skipped-write", "writer/decoy-between", "writer/protobuf-between", "writer/check_validity=True",
                     "writer/filename-none", "entry/reader-lanelet-assignment", "entry/reader-network-only", "entry/check_validity",
-                    "dims/table-checked", "outside/history-left-the-quantifier", "outside/after-network-copy"]
+                    "num/z-zero-at-some-vertices", "num/z-zero-at-all-vertices", "num/z-nowhere-zero", "num/z-negative-zero",
+                    "num/state-value-zero", "dims/table-checked", "outside/history-left-the-quantifier", "outside/after-network-copy"]
 WORKERS = {"quick": 1, "thorough": 8}
 
 XS_DECIMAL = re.compile(r"[+-]?([0-9]+(\.[0-9]*)?|\.[0-9]+)\Z")
@@ -726,6 +727,8 @@ def number_tags(ctx, spec):
                 ctx.tag("num/length<1e-4")
             if o.get("k") == "rect" and 0 < abs(o["o"]) < 1e-4:
                 ctx.tag("num/orientation<1e-4")
+            if isinstance(o.get("vals"), dict) and any(isinstance(v, (int, float)) and v == 0 for v in o["vals"].values()):
+                ctx.tag("num/state-value-zero")       # an exact state value 0 / 0.0 / -0.0 (falsy, but a value to be written)
             for v in o.values():
                 walk(v)
         elif isinstance(o, list):
@@ -809,6 +812,14 @@ def write_doc(ctx, spec):
             ctx.tag(f"var/{k}")
     if V:
         ctx.tag(f"entry/add-{V.get('entry')}", f"var/goal-{V.get('goal_cls')}")
+    for la in sc.lanelet_network.lanelets:      # observed on the objects: elevations that are exactly zero at some / all vertices
+        if la.left_vertices.shape[1] == 3:
+            zs = list(la.left_vertices[:, 2]) + list(la.right_vertices[:, 2])
+            zero = [float(z) == 0.0 for z in zs]
+            ctx.tag("num/z-zero-at-some-vertices" if any(zero) and not all(zero) else
+                    "num/z-zero-at-all-vertices" if all(zero) else "num/z-nowhere-zero")
+            if any(math.copysign(1.0, float(z)) < 0 and float(z) == 0.0 for z in zs):
+                ctx.tag("num/z-negative-zero")
     r = random.Random(V.get("hseed", 0))
     path = os.path.join(ctx.tmpdir(), f"doc_{ctx.worker}.xml")
     prec = W.get("precision", "spec")
@@ -1155,6 +1166,9 @@ def run(ctx, docs=260, numbers=4000, mutants=8):
         if i < 12:
             spec["precision"] = i + 1          # every precision in every run
             spec["var"]["writer"]["precision"] = "spec"
+        elif i < 12 + len(c03_gen.Z_PROFILES):
+            spec["var"]["lanelet3d"] = c03_gen.Z_PROFILES[i - 12]      # every elevation profile in every run
+            spec["var"]["hist"] = [h for h in spec["var"]["hist"] if h != "convert2d"]
         run_doc(ctx, spec, mutants=mutants)
     for i in range(ctx.n(numbers)):
         run_number(ctx, {"kind": "num", "x": gen_number(r), "p": r.randint(0, 12) if i % 7 else r.choice([1, 4, 12])})
